@@ -202,6 +202,14 @@ func genC07(c *Ctx) {
 			emit(true, fmt.Sprintf("buf c=1 n=%d size=%d sync=0 osat=1 ofail=%s script=-", 2*cc+6, cc+1, of))
 		}
 	}
+	// (e'') concurrent consume with one worker: the callback fails on element 0 while element 1 sits in the (full) item channel
+	//       and the producer is inside Emit for element 2, which then comes back with an error: the producer has nobody to
+	//       hand that error to and must still end
+	for _, mg := range []int{0, 1} {
+		emit(true, fmt.Sprintf("ccons c=1 n=6 size=3 sync=1 mg=%d park=2 mf=0 script=-", mg))
+		emit(true, fmt.Sprintf("ccons c=1 n=6 size=3 sync=1 mg=%d park=2 mf=0 rep=2 script=-", mg))
+		emit(true, fmt.Sprintf("ccons c=1 n=6 size=3 sync=1 mg=%d park=2 mp=0 script=-", mg))
+	}
 	// (f') the SOURCE fails to open: the asynchronous stage never got a reader going; its stop / close sequence must not
 	//      wait for one (first materialisation of the stream value, and again after it)
 	for cc := 1; cc <= 2; cc++ {
